@@ -64,9 +64,10 @@ class C15(HsProp):
         for hs, method, ver in variants:
             out.append('SD sd%d %s %s %s' % (k, hx(method), {b'HTTP/1.0': '10', b'HTTP/1.1': '11'}[ver], gen_hs.hdrs_field(hs)))
             req = gen_hs.request_bytes(hs, method=method, version=ver)
-            cb = gen_hs.CALLBACKS[k % len(gen_hs.CALLBACKS)] if k % 3 == 0 else 'none'
-            wr = gen_hs.WPATS[k % len(gen_hs.WPATS)] if k % 4 == 0 else []
-            fl = gen_hs.FPATS[k % len(gen_hs.FPATS)] if k % 5 == 0 else []
+            # independent choices (indexing all three by k made most combinations, and most patterns, unreachable)
+            cb = rng.choice(gen_hs.CALLBACKS) if rng.random() < 0.35 else 'none'
+            wr = rng.choice(gen_hs.WPATS) if rng.random() < 0.4 else []
+            fl = rng.choice(gen_hs.FPATS) if rng.random() < 0.3 else []
             frame = ws.encode_frame(1, b'hello', mask=b'\x01\x02\x03\x04')
             segs = gen_hs.segment(rng, req, rng.choice([1, 1, 2, 5]))
             rds = gen_hs.rds_of(segs, 0.2, rng) + ['d:' + hx(frame)]
@@ -142,8 +143,8 @@ class C16(HsProp):
                 if k % 4 == 1:
                     out.append(gen_hs.hc_case('hm%d' % k, b'ws://example.com/m', subs, [], ['r'], ['d:' + hx(gen_hs.mutate_head(rng, resp)), 'd:' + hx(frame1)])); k += 1
                 out.append(gen_hs.hc_case('hc%d' % k, b'ws://example.com/s?q=%d' % k, subs, extra, ['r', 'r', 'wt:6869', 'f'],
-                                          gen_hs.rds_of(segs, 0.2, rng), gen_hs.WPATS[k % len(gen_hs.WPATS)] if k % 6 == 0 else [],
-                                          gen_hs.FPATS[k % len(gen_hs.FPATS)] if k % 7 == 0 else []))
+                                          gen_hs.rds_of(segs, 0.2, rng), rng.choice(gen_hs.WPATS) if rng.random() < 0.3 else [],
+                                          rng.choice(gen_hs.FPATS) if rng.random() < 0.3 else []))
                 k += 1
         # head/frame boundary at every offset around the end of the head
         resp = gen_hs.response_bytes([(b'Upgrade', b'websocket'), (b'Connection', b'Upgrade'), (b'Sec-WebSocket-Accept', gen_hs.ACCEPT_MARK)])
@@ -249,13 +250,13 @@ class C17(HsProp):
         for gi, head in enumerate([good, bad, post, junk]):
             for segs in seg_variants(rng, head, quick):
                 for wbp in ((0.0, 0.5) if not quick else (0.0 if k % 2 else 0.5,)):
-                    wr = gen_hs.WPATS[k % 4] ; fl = gen_hs.FPATS[k % 3]
+                    wr = rng.choice(gen_hs.WPATS) ; fl = rng.choice(gen_hs.FPATS)
                     cid = 'sg%d_%d' % (gi, k)
                     out.append(gen_hs.hs_case(cid, 'none', ['r'], gen_hs.rds_of(segs, wbp, rng), wr, fl)); k += 1
         resp = gen_hs.response_bytes([(b'Upgrade', b'websocket'), (b'Connection', b'Upgrade'), (b'Sec-WebSocket-Accept', gen_hs.ACCEPT_MARK)])
         for segs in seg_variants(rng, resp, quick):
             out.append(gen_hs.hc_case('cg0_%d' % k, b'ws://example.com/', ops=['r'], rds=gen_hs.rds_of(segs, 0.3, rng),
-                                      wrs=gen_hs.WPATS[k % 4], fls=gen_hs.FPATS[k % 3])); k += 1
+                                      wrs=rng.choice(gen_hs.WPATS), fls=rng.choice(gen_hs.FPATS))); k += 1
         for name, chunks in gen_hs.endless_heads():
             out.append(gen_hs.hs_case('end_%s' % name, 'none', ['r'], gen_hs.rds_of(chunks), [], [])); k += 1
             out.append(gen_hs.hc_case('endc_%s' % name, b'ws://example.com/', ops=['r'], rds=gen_hs.rds_of(chunks))); k += 1
